@@ -20,7 +20,6 @@ vars == <<K, lastR, lastK, path>>
 View == K
 
 Tm0 == [t0 |-> 0, t1 |-> 0]
-NoObs == [t |-> "noobs"]
 
 Size(e) == IF e.t = "string" \/ e.t = "list" THEN Len(e.v)
            ELSE IF e.t = "set" THEN Cardinality(e.v)
@@ -67,6 +66,23 @@ ReadOnly == (path # <<>> /\ CmdName(Upper(path[Len(path)][1])) \in ReadOnlyNames
 (* cross-command laws evaluated in every reachable state *)
 The(outs) == CHOOSE o \in outs : TRUE
 R1(name, a) == The(DataCmd(name, a, K, Tm0, NoObs)).r
+(* sorted-set laws (C04): every query agrees with the derived (score, member) order *)
+ZLaws(k) ==
+  LET z == K[k].v s == ZSeq(z) n == Len(s)
+      all == R1("ZRANGE", <<L_ZRANGE, k, <<48>>, <<45, 49>>>>)
+      rall == R1("ZREVRANGE", <<L_ZREVRANGE, k, <<48>>, <<45, 49>>>>)
+  IN /\ all = RBulks(s)
+     /\ rall = RBulks(Rev(s))
+     /\ R1("ZCARD", <<L_ZCARD, k>>) = RInt(n)
+     /\ \A i \in 1..n :
+          /\ R1("ZRANK", <<L_ZRANK, k, s[i]>>) = RInt(i - 1)
+          /\ R1("ZREVRANK", <<L_ZREVRANK, k, s[i]>>) = RInt(n - i)
+          /\ R1("ZRANGE", <<L_ZRANGE, k, IntBytes(i - 1), IntBytes(i - 1)>>) = RBulks(<<s[i]>>)
+          /\ R1("ZSCORE", <<L_ZSCORE, k, s[i]>>) = RScore(z[s[i]])
+     /\ \A i \in 1..(n - 1) : ZLess(z, s[i], s[i + 1])
+     /\ R1("ZCOUNT", <<L_ZCOUNT, k, L_minf, L_pinf>>) = RInt(n)
+     /\ Len(R1("ZRANGEBYSCORE", <<L_ZRANGEBYSCORE, k, L_minf, L_pinf>>).v) = n
+
 Laws ==
   \A k \in DOMAIN K \cup {<<122>>} :
     /\ LET ex == R1("EXISTS", <<L_EXISTS, k>>) ty == R1("TYPE", <<L_TYPE, k>>)
@@ -74,6 +90,7 @@ Laws ==
     /\ IsT(K, k, "string") =>
          /\ R1("STRLEN", <<L_STRLEN, k>>) = RInt(Len(R1("GET", <<L_GET, k>>).v))
          /\ R1("GETRANGE", <<L_GETRANGE, k, <<48>>, <<45, 49>>>>) = R1("GET", <<L_GET, k>>)
+    /\ IsT(K, k, "zset") => ZLaws(k)
     /\ R1("DBSIZE", <<L_DBSIZE>>) = RInt(Len(R1("KEYS", <<L_KEYS, <<42>>>>).v))
 
 =============================================================================
